@@ -86,6 +86,16 @@ def guarded_call(x, api, data, zeros_seen):
         delattr(x, name)
 
 
+def wait_call(t, p, cap=120):
+    """Wait for the call; stop waiting early (for the quiescence analysis, never for a verdict) once the link has
+    been silent for a while and the thread is still there."""
+    end = time.monotonic() + cap
+    while t.is_alive() and time.monotonic() < end:
+        t.join(0.02)
+        if t.is_alive() and p.link.quiescent(1.0):
+            return
+
+
 def run_case(ctx, case, rng):
     role = case["role"]
     small = case["window"] == "exhausted"
@@ -167,17 +177,20 @@ def run_case(ctx, case, rng):
                 y.close()
             elif ub == "loss":
                 p.link.abrupt()
-            t.join(90)
+            wait_call(t, p)
             if rd is not None:
                 rd.stop()
         else:
-            t.join(90)
+            wait_call(t, p)
         flags = "eof_sent=%s, closed=%s, transport active=%s" % (bool(x.eof_sent), bool(x.closed), bool(tx.is_active()))
         desc = dict(case=case, flags=flags)
         if t.is_alive():
-            ok, stk = cm.blocked_at_quiescence([t], p.link, ctx.pick(10, 20))
+            sig = "%s never returned: blocked at quiescence (%s, mode=%s)" % (case["api"], flags, case["mode"])
+            # the first witness of a mechanism pays the full margin; repeats of the same one a short one
+            ok, stk = cm.blocked_at_quiescence([t], p.link, 1.0 if sig in ctx.violations else ctx.pick(10, 20))
             if ok:
-                ctx.violation("%s never returned: blocked at quiescence (%s, mode=%s)" % (case["api"], flags, case["mode"]),
+                ctx.count("calls_blocked_at_quiescence")
+                ctx.violation(sig,
                               "the call is parked with the link drained and nothing left that could wake it",
                               dict(desc, stack=stk))
             else:
@@ -243,24 +256,33 @@ def iso_case(args):
             n[0] += 1
             if n[0] in (2, 1000, 100000):
                 iso.emit(dict(consecutive_zero_sends=n[0], eof_sent=bool(x.eof_sent), closed=bool(x.closed)))
+            if n[0] >= 100000:
+                raise Spin()  # 100000 retries without progress: stop observing
         return r
 
     setattr(x, name, counting)
     try:
         getattr(x, args["api"])(b"x" * 10)
         return dict(outcome="returned", zeros=n[0])
+    except Spin:
+        return dict(outcome="nonterminating", zeros=n[0], eof_sent=bool(x.eof_sent), closed=bool(x.closed))
     except Exception as e:
         return dict(outcome="raised", exc=type(e).__name__, zeros=n[0])
 
 
 def run_iso(ctx, rng):
     args = dict(role=rng.choice("cs"), api=rng.choice(APIS))
-    r = iso.call("vf.props.c25:iso_case", args, timeout=ctx.pick(8, 15))
+    r = iso.call("vf.props.c25:iso_case", args, timeout=150)
     ctx.count("isolated_calls")
     if r["status"] == "ok":
         v = r["value"]
         if v.get("outcome") == "raised":
             ctx.count("isolated_outcome_raised")
+        elif v.get("outcome") == "nonterminating":
+            ctx.count("isolated_nonterminating_calls")
+            ctx.violation("%s spins: send keeps returning 0 (eof_sent=True, closed=False, transport active=True)" % args["api"],
+                          "unguarded sendall after shutdown_write: %d consecutive zero-length sends without progress" % v["zeros"],
+                          dict(args=args, result=v))
         elif v.get("outcome") == "returned":
             ctx.violation("%s returned normally with bytes missing on the wire (eof_sent=True, closed=False, transport active=True)"
                           % args["api"], "unguarded sendall after shutdown_write returned", dict(args=args, result=v))
@@ -274,7 +296,7 @@ def run_iso(ctx, rng):
                           "unguarded sendall after shutdown_write never returned; >=1000 consecutive zero-length sends observed",
                           dict(args=args, emitted=r["emitted"][-3:]))
         else:
-            ctx.inconclusive("isolated sendall timed out without logical evidence")
+            ctx.inconclusive("isolated sendall timed out without logical evidence: %s" % str(r.get("stacks"))[-1200:])
     else:
         ctx.inconclusive("isolated case failed: %s" % str(r)[:300])
 
@@ -313,7 +335,7 @@ def run(ctx):
         ctx.count("matrix_shards_complete")
     ctx.guard(run_iso, ctx, rng)
     ctx.require("calls_judged", 60)
-    ctx.require("outcome_returned", 15)
+    ctx.require("outcome_returned", 10)
     ctx.require("outcome_raised", 30)
     ctx.require("calls_parked_on_window", 8)
     ctx.require("windows_exhausted", 20)
